@@ -1,9 +1,13 @@
 package main
 
 import (
+	"bufio"
+	"fmt"
 	"go/ast"
 	"go/constant"
 	"go/token"
+	"os"
+	"regexp"
 	"path/filepath"
 	"strconv"
 	"strings"
@@ -174,7 +178,29 @@ func genBech32() {
 	g.write()
 }
 func genBip39()  {}
-func genCurl()   {}
+func genCurl() {
+	p := repoPkg("pkg/curl")
+	g := newGen("Curl")
+	g.def("stateSize", "Int", p.intConst("StateSize"))
+	g.def("numRounds", "Int", p.intConst("NumRounds"))
+	c := load(filepath.Join(iotaGoDir(), "consts"))
+	g.def("hashTrinarySize", "Int", c.intConst("HashTrinarySize"))
+	g.def("maxBatchSize", "Int", p.intConst("MaxBatchSize"))
+	g.raw(translateFunc(p, "sBox"))
+	g.raw(translateFunc(p, "bool2int"))
+	g.src(p, "transformGeneric", "sBox", "NewCurlP81", "Curl.Reset", "Curl.Clone", "Curl.CopyState",
+		"Curl.Absorb", "Curl.Squeeze", "Curl.in", "Curl.out", "Curl.transform", "bool2int")
+	// build-tag selection of the permutation
+	g.def("buildTagAsm", "String", leanString(buildConstraint(filepath.Join(*repo, "pkg/curl/transform_amd64.go"))))
+	g.def("buildTagNoasm", "String", leanString(buildConstraint(filepath.Join(*repo, "pkg/curl/transform_noasm.go"))))
+	g.def("buildTagAsmS", "String", leanString(buildConstraint(filepath.Join(*repo, "pkg/curl/transform_amd64.s"))))
+	g.def("noasmBody", "String", leanString(normWS(stripComments(p.srcOfFile("transform_noasm.go", "transform")))))
+	g.write()
+
+	a := newGen("CurlAsm", "Iota.Model.Asm")
+	a.raw("open Iota.Asm in\ndef program : List Iota.Asm.Instr := [\n" + parseAsm(filepath.Join(*repo, "pkg/curl/transform_amd64.s")) + "]\n")
+	a.write()
+}
 func genPow()    {}
 func genMisc() {
 	genAddress()
@@ -204,4 +230,156 @@ func genAddress() {
 	gd := load(filepath.Join(iotaGoDir(), "guards"))
 	g.src(gd, "IsTrytesOfExactLength")
 	g.write()
+}
+
+func (p *pkg) srcOfFile(file, fn string) string {
+	f := p.files[file]
+	if f == nil {
+		// files excluded by build constraints are still parsed by load(); a missing file is an error
+		die("%s: file %s not found", p.dir, file)
+	}
+	for _, d := range f.Decls {
+		if fd, ok := d.(*ast.FuncDecl); ok && fd.Name.Name == fn {
+			fd2 := *fd
+			fd2.Doc = nil
+			return p.src(&fd2)
+		}
+	}
+	die("%s: %s not in %s", p.dir, fn, file)
+	return ""
+}
+
+// buildConstraint returns the //go:build or // +build lines of a file, normalised.
+func buildConstraint(path string) string {
+	f, err := os.Open(path)
+	if err != nil {
+		die("%v", err)
+	}
+	defer f.Close()
+	var res []string
+	sc := bufio.NewScanner(f)
+	for sc.Scan() {
+		l := strings.TrimSpace(sc.Text())
+		if strings.HasPrefix(l, "//go:build") || strings.HasPrefix(l, "// +build") {
+			res = append(res, normWS(l))
+		}
+		if strings.HasPrefix(l, "package ") || strings.HasPrefix(l, "TEXT") {
+			break
+		}
+	}
+	return strings.Join(res, " | ")
+}
+
+func sameFile(a, b string) bool {
+	x, err1 := os.ReadFile(a)
+	y, err2 := os.ReadFile(b)
+	return err1 == nil && err2 == nil && string(x) == string(y)
+}
+
+var (
+	reLabel = regexp.MustCompile(`^([A-Za-z_][A-Za-z0-9_]*):$`)
+	reMem   = regexp.MustCompile(`^(-?\d+)?\(([A-Z0-9]+)\)(?:\(([A-Z0-9]+)\*(\d+)\))?$`)
+	reArg   = regexp.MustCompile(`^[a-z_][A-Za-z0-9_]*\+(\d+)\(FP\)$`)
+)
+
+func asmOperand(s string) string {
+	s = strings.TrimSpace(s)
+	switch {
+	case strings.HasPrefix(s, "$"):
+		v, err := strconv.ParseInt(strings.TrimPrefix(s, "$"), 0, 64)
+		if err != nil {
+			die("asm: bad immediate %s", s)
+		}
+		return fmt.Sprintf("(.imm %s)", leanInt(strconv.FormatInt(v, 10)))
+	case reArg.MatchString(s):
+		return "(.arg " + reArg.FindStringSubmatch(s)[1] + ")"
+	case reMem.MatchString(s):
+		m := reMem.FindStringSubmatch(s)
+		disp := m[1]
+		if disp == "" {
+			disp = "0"
+		}
+		idx, scale := "none", "1"
+		if m[3] != "" {
+			idx, scale = "(some ."+m[3]+")", m[4]
+		}
+		return fmt.Sprintf("(.mem %s .%s %s %s)", leanInt(disp), m[2], idx, scale)
+	case regexp.MustCompile(`^[A-Z][A-Z0-9]*$`).MatchString(s):
+		return "(.reg ." + s + ")"
+	}
+	die("asm: unsupported operand %q", s)
+	return ""
+}
+
+// parseAsm renders the instructions of the (single) TEXT block as Lean `Instr` constructors.
+func parseAsm(path string) string {
+	f, err := os.Open(path)
+	if err != nil {
+		die("%v", err)
+	}
+	defer f.Close()
+	labels := map[string]int{}
+	var lines []string
+	sc := bufio.NewScanner(f)
+	inText := false
+	for sc.Scan() {
+		l := sc.Text()
+		if i := strings.Index(l, "//"); i >= 0 {
+			l = l[:i]
+		}
+		l = strings.TrimSpace(l)
+		if l == "" || strings.HasPrefix(l, "#include") {
+			continue
+		}
+		if strings.HasPrefix(l, "TEXT") {
+			if inText {
+				die("asm: more than one TEXT block")
+			}
+			inText = true
+			if !strings.Contains(l, "transform(SB)") || !strings.Contains(l, "$0-32") {
+				die("asm: unexpected TEXT header %q", l)
+			}
+			continue
+		}
+		if !inText {
+			die("asm: instruction outside TEXT: %q", l)
+		}
+		lines = append(lines, l)
+		if m := reLabel.FindStringSubmatch(l); m != nil {
+			labels[m[1]] = len(labels)
+		}
+	}
+	var out []string
+	two := map[string]string{"MOVQ": "movq", "XORQ": "xorq", "ANDQ": "andq", "ORQ": "orq", "ADDQ": "addq", "SUBQ": "subq", "CMPQ": "cmpq", "XCHGQ": "xchgq"}
+	one := map[string]string{"NOTQ": "notq", "DECQ": "decq"}
+	for _, l := range lines {
+		if m := reLabel.FindStringSubmatch(l); m != nil {
+			out = append(out, fmt.Sprintf("  .label %d", labels[m[1]]))
+			continue
+		}
+		fs := strings.Fields(l)
+		op := fs[0]
+		rest := strings.TrimSpace(strings.TrimPrefix(l, op))
+		switch {
+		case op == "RET":
+			out = append(out, "  .ret")
+		case op == "JL" || op == "JNZ":
+			id, ok := labels[rest]
+			if !ok {
+				die("asm: unknown label %s", rest)
+			}
+			out = append(out, fmt.Sprintf("  .%s %d", strings.ToLower(op), id))
+		case two[op] != "":
+			ops := strings.Split(rest, ",")
+			if len(ops) != 2 {
+				die("asm: %q", l)
+			}
+			out = append(out, fmt.Sprintf("  .%s %s %s", two[op], asmOperand(ops[0]), asmOperand(ops[1])))
+		case one[op] != "":
+			out = append(out, fmt.Sprintf("  .%s %s", one[op], asmOperand(rest)))
+		default:
+			die("asm: unsupported instruction %q", l)
+		}
+	}
+	return strings.Join(out, ",\n") + "\n"
 }
